@@ -4,9 +4,9 @@ use super::*;
 
 pub fn run(ctx: &mut Ctx) {
     let n = ctx.scaled(if ctx.tier == "thorough" { 6_000_000 } else { 200_000 });
-    drive(ctx, Prop::C08, "hist", n, Mix { error_sixteenths: 1, max_steps: 24, big_start: false });
+    drive(ctx, Prop::C08, "hist", n, Mix { error_sixteenths: 1, max_steps: 24, big_start: false, near_limit: 0, want: Prop::C08 });
     let n = ctx.scaled(if ctx.tier == "thorough" { 600_000 } else { 20_000 });
-    drive(ctx, Prop::C08, "hist-long", n, Mix { error_sixteenths: 0, max_steps: 60, big_start: false });
+    drive(ctx, Prop::C08, "hist-long", n, Mix { error_sixteenths: 0, max_steps: 60, big_start: false, near_limit: 0, want: Prop::C08 });
     let n = ctx.scaled(if ctx.tier == "thorough" { 400_000 } else { 40_000 });
     drive_header_alias(ctx, Prop::C08, n);
 }
